@@ -674,12 +674,13 @@ class DestHandler:
         self._reset_internal(False)
 
     def _handle_fd_without_previous_metadata(self, first_pdu: bool, fd_pdu: FileDataPdu) -> None:
-        # The progress must never decrease: file data can arrive out of order, be duplicated or
-        # arrive after the EOF PDU, and the lost segment added below starts at offset 0.
-        self._params.fp.progress = max(
-            self._params.fp.progress, fd_pdu.offset + len(fd_pdu.file_data)
-        )
         if len(fd_pdu.file_data) > 0:
+            # The progress must never decrease: file data can arrive out of order, be duplicated
+            # or arrive after the EOF PDU, and the lost segment added below starts at offset 0.
+            # An empty file data PDU does not advance it: nothing below its offset is tracked.
+            self._params.fp.progress = max(
+                self._params.fp.progress, fd_pdu.offset + len(fd_pdu.file_data)
+            )
             start = fd_pdu.offset
             if first_pdu:
                 start = 0
